@@ -15,3 +15,15 @@ func (r *SourceRunner) VerifSetWatermarkTicks(ticks <-chan time.Time) {
 	r.watermarkTicker.Stop()
 	r.watermarkTicker = &time.Ticker{C: ticks}
 }
+
+// VerifRelease lets the two goroutines a stopped runner leaves blocked for ever
+// (the consumer of outputStream and the listener on errChan) exit, so that a
+// process running thousands of runners one after the other does not accumulate
+// them. Call it only after Start has returned and the process is quiescent.
+func (r *SourceRunner) VerifRelease() {
+	close(r.outputStream)
+	select {
+	case r.errChan <- nil:
+	default:
+	}
+}
